@@ -51,7 +51,7 @@ var namedOdd = map[string][]string{
 	"sort":                  {"~id", "-id", "id%20desc", "nosuch", ",", "~", "id,", ",id", "id,id", "~~id", "1", "id;drop"},
 	"columns":               {"nosuch", "id,,name", "*", "count(*)", ",", "id,", "count(", "id%20as%20x", "_row_id_", "id,id"},
 	"user":                  {"nosuchuser", adminName, "%2A", ""},
-	"id":                    {"nosuchtx", someUUID + "x", "00000000-0000-0000-0000-000000000000", "not-a-uuid"},
+	"transaction":           {"nosuchtx", someUUID + "x", "00000000-0000-0000-0000-000000000000", "not-a-uuid"},
 	"upsert":                {"nosuch", "id,name", ",", "id,", "_row_id_", "*"},
 	"class":                 {"nosuch", "server,", ",", "server,,auth", "all", "SERVER", "-server"},
 	"msg":                   {"*", "[", "\\", "server.[", "**", "?"},
@@ -303,7 +303,8 @@ func (p *plan) slotsOf(v *variant, base *build, id identity) []slot {
 				s.opts = append(s.opts, opt("path-odd", x, false, set(x)))
 			}
 		case name == "value":
-			for _, x := range []string{"1", "2", "-12", "1.5", "97", "9223372036854775807", "1000000007"} {
+			// (no large primes: the factor service counts up to the value, which takes minutes in the interpreter)
+			for _, x := range []string{"1", "2", "-12", "1.5", "97", "65536"} {
 				s.opts = append(s.opts, opt("path-odd", x, false, set(x)))
 			}
 		case name == "id":
